@@ -94,6 +94,7 @@ type core struct {
 	preParked  chan struct{}
 	preRelease chan struct{}
 	vers0      map[string]bool
+	expTab     map[int64]int64 // wall-clock ns of every ExpiresAt written -> its instant on the scenario's clock
 	staleCalls int // calls presenting a version of the earlier tenure while the tenure under study runs (all must fail)
 }
 
@@ -118,9 +119,24 @@ func (c *core) newVer(v string) int64 {
 	return c.nver
 }
 
+// rel: the instant on the clock of the scenario (monotonic ns since base). An ExpiresAt that comes back from a store
+// that serialises records (Redis) has lost its monotonic reading; it is the very instant that was written, so it is
+// given the value that instant had when it was written (looked up by its wall-clock nanoseconds) instead of a distance
+// measured on the wall clock, which drifts against the monotonic one. Must be called with c.mu held.
 func (c *core) rel(t *time.Time) int64 {
 	if t == nil {
 		return -1
+	}
+	if c.expTab == nil {
+		c.expTab = map[int64]int64{}
+	}
+	if *t != t.Round(0) { // carries a monotonic reading
+		v := int64(t.Sub(c.base))
+		c.expTab[t.UnixNano()] = v
+		return v
+	}
+	if v, ok := c.expTab[t.UnixNano()]; ok {
+		return v
 	}
 	return int64(t.Sub(c.base))
 }
